@@ -418,6 +418,59 @@ def excise_range(text: str, start: str, last: str, replacement: str, report: Dro
     return fr.apply()
 
 
+def split_or_guard_arm(text: str, anchor: str, report: DropReport, item: str) -> str:
+    """W17: Verus refuses a match arm that has both an or-pattern and a guard.  `P1 | P2 if G => B,` is rewritten into the two
+    arms `P1 if G => B, P2 if G => B,` (same meaning: each alternative is tried in order and the guard decides for it)."""
+    fr = R.Frag(text)
+    ct = fr.ct
+    idx = R.find_seq(ct, R.tokenize_pattern(anchor))
+    if len(idx) != 1:
+        raise ExtractError(f"{item}: `{anchor}` matched {len(idx)} times")
+    a = idx[0]
+    k = a
+    bars = []
+    kif = None
+    while True:
+        tt = ct[k].text
+        if tt in R.OPEN:
+            k = R.match_close(ct, k) + 1
+            continue
+        if tt == "|":
+            bars.append(k)
+        elif tt == "if" and kif is None:
+            kif = k
+        elif tt == "=>":
+            break
+        k += 1
+    karrow = k
+    if not bars or kif is None or any(b > kif for b in bars):
+        raise ExtractError(f"{item}: `{anchor}` does not start an arm with an or-pattern and a guard")
+    # body: a block, or an expression up to the `,` at depth 0
+    b0 = karrow + 1
+    if ct[b0].text == "{":
+        b1 = R.match_close(ct, b0)
+    else:
+        e = b0
+        while True:
+            tt = ct[e].text
+            if tt in R.OPEN:
+                e = R.match_close(ct, e) + 1
+                continue
+            if tt == "," or tt in R.CLOSE:
+                break
+            e += 1
+        b1 = e - 1
+    guard = text[ct[kif].start:ct[karrow - 1].end]
+    body = text[ct[b0].start:ct[b1].end]
+    cuts = [a] + [b + 1 for b in bars]
+    ends = [b - 1 for b in bars] + [kif - 1]
+    pats = [text[ct[c].start:ct[e].end] for c, e in zip(cuts, ends)]
+    arms = ",\n".join(f"{p} {guard} => {body}" for p in pats)
+    fr.replace(ct[a].start, ct[b1].end, arms)
+    report.add("W17", item, f"arm `{anchor} ..` with an or-pattern of {len(pats)} alternatives and a guard split into {len(pats)} arms with the same guard and body")
+    return fr.apply()
+
+
 def tail_loop_break_to_return(text: str, report: DropReport, item: str) -> str:
     """W16: Verus has no `break VALUE`.  When a `loop { .. }` is the TAIL expression of the function body, leaving it with
     `break E` is returning E from the function: each `break E` of that loop becomes `return E`.  Breaks of nested loops and of
@@ -1129,6 +1182,8 @@ class Unit:
                 text = drop_cfg_gated(text, icfg["drop_cfg_features"], self.report, itemname)
             for ex in icfg.get("excise", []):
                 text = excise_match(text, ex["scrutinee"], ex["replace"], self.report, itemname)
+            for anc in icfg.get("split_or_guard_arm", []):
+                text = split_or_guard_arm(text, anc, self.report, itemname)
             if icfg.get("tail_loop_break_to_return"):
                 text = tail_loop_break_to_return(text, self.report, itemname)
             if icfg.get("mut_self_to"):
